@@ -37,6 +37,9 @@ type aeCtx struct {
 	stepLimit int
 	orderedConst map[string]bool // term is compared by order (not just equality) with constants
 	stageMode  bool
+	noStage    map[*ssa.Function]bool  // comparators whose operands are also read directly by the caller: inlined
+	directRead map[string]bool          // term keys demanded directly by evaluated code
+	stageBases map[string][]*ssa.Function // operand key -> stages summarised over it
 	stages     map[*ssa.Function]*stageInfo // shared cache: callee comparators proven total preorders
 	stagesUsed map[string]bool
 	opaqueFns  map[*ssa.Function]string
@@ -63,6 +66,7 @@ func newAECtx(p *Prog) *aeCtx {
 	}
 	c.stages = p.aeStages
 	c.stageMode = true
+	c.noStage, c.directRead, c.stageBases = map[*ssa.Function]bool{}, map[string]bool{}, map[string][]*ssa.Function{}
 	return c
 }
 
@@ -239,7 +243,22 @@ func (c *aeCtx) basesEqual(w *world, key string, p, q int) bool {
 }
 
 // posInd: position of individual p on term key (demanded if unassigned)
+func (r *aeRun) noteDirect(key string) {
+	if r.ctx.directRead[key] {
+		return
+	}
+	r.ctx.directRead[key] = true
+	if fns := r.ctx.stageBases[key]; len(fns) > 0 {
+		for _, f := range fns {
+			r.ctx.noStage[f] = true
+		}
+		delete(r.ctx.stageBases, key)
+		panic(restartAnalysis{})
+	}
+}
+
 func (r *aeRun) posInd(key string, p int) int {
+	r.noteDirect(key)
 	if v, ok := r.w.pos[posKey(key, p)]; ok {
 		return v
 	}
@@ -1234,6 +1253,38 @@ func baseKeys(args []any) []string {
 }
 
 func (r *aeRun) derived(name string, args []any, t types.Type) any {
+	// an operand whose field has a closed domain sits on one of its constants: fold
+	if _, foldable := foldConst(name, nil); foldable {
+		sub := make([]any, len(args))
+		copy(sub, args)
+		all := true
+		for i, a := range args {
+			switch x := a.(type) {
+			case avConst:
+			case avTerm:
+				all = false
+				if o, ok := r.ctx.originOf[x.key]; ok && isStringType(x.t) {
+					if d := r.ctx.fieldDomain(o); d != nil && d.closed {
+						pos := r.posOf(x.key, x.side)
+						if pos%2 == 1 && pos/2 < len(r.ctx.pools[x.key]) {
+							sub[i] = avConst{r.ctx.pools[x.key][pos/2]}
+							all = true
+						}
+					}
+				}
+			default:
+				all = false
+			}
+			if !all {
+				break
+			}
+		}
+		if all {
+			if v, ok := foldConst(name, sub); ok {
+				return v
+			}
+		}
+	}
 	side, mixed, keys := sidesOf(args)
 	if mixed || keys == nil {
 		return avUnknown{name + " of mixed or unmodelled operands"}
@@ -1354,7 +1405,15 @@ func (r *aeRun) callRepo(fn *ssa.Function, args []any, site *ssa.Call) (res any)
 		return r.mkTerm(key, 0, types.Typ[types.Int], akOrder, nil)
 	}
 	if r.ctx.stageMode && r.depth >= 1 {
-		if ks, s0, ok := mirroredArgs(fn, args); ok {
+		if ks, s0, ok := mirroredArgs(fn, args); ok && !r.ctx.noStage[fn] {
+			for _, k := range ks {
+				if r.ctx.directRead[k] {
+					// the caller also branches on this operand itself: a summarised relation would
+					// lose the connection between the two readings
+					r.ctx.noStage[fn] = true
+					panic(restartAnalysis{})
+				}
+			}
 			st, known := r.ctx.stages[fn]
 			if !known {
 				panic(needStage{fn})
@@ -1371,6 +1430,15 @@ func (r *aeRun) callRepo(fn *ssa.Function, args []any, site *ssa.Call) (res any)
 					}
 				}
 				r.ctx.stagesUsed[key] = true
+				for _, k := range ks {
+					known := false
+					for _, f := range r.ctx.stageBases[k] {
+						known = known || f == fn
+					}
+					if !known {
+						r.ctx.stageBases[k] = append(r.ctx.stageBases[k], fn)
+					}
+				}
 				return intC(int64(r.cmpKey(key, s0, 1-s0)))
 			}
 		}
@@ -1550,6 +1618,14 @@ var _ = sort.Strings
 
 // foldConst evaluates a few pure std functions on constant arguments (constant folding).
 func foldConst(name string, args []any) (any, bool) {
+	if args == nil {
+		// query: is this function folded at all
+		switch name {
+		case "Atoi", "ToLower", "ToUpper", "TrimSpace", "HasPrefix", "HasSuffix", "Contains", "EqualFold", "TrimLeft", "TrimRight", "Trim", "TrimPrefix", "TrimSuffix":
+			return nil, true
+		}
+		return nil, strings.HasPrefix(name, "Match[")
+	}
 	str := func(i int) (string, bool) {
 		c, ok := args[i].(avConst)
 		if !ok || c.v.Kind() != constant.String {
